@@ -28,15 +28,29 @@ inductive PR where
   | err
   | rule (r : Option Rule)
 
-/-- `none` = malformed; `some none` = `N` (no ACL stored) -/
+/-- `|theta| + Σ |w| < 2^53`: every float64 sum the code can form over the rule is exact -/
+def inExactRange (th : Int) (ms : List (Name × Int)) : Bool :=
+  th.natAbs + (ms.map (fun m => m.2.natAbs)).foldl (· + ·) 0 < 2 ^ 53
+
+def parseThr (th ms : String) : Option (Option Rule) := do
+  let th ← th.toInt?
+  let ms ← if ms == "" then some [] else (ms.splitOn ",").mapM parseMember
+  if inExactRange th ms then pure (some (Rule.thr ms th)) else none
+
+/-- `none` = malformed; `some none` = `N` (no ACL stored).  `T:` = weights in quarters; `Q<e>:` = in units of `2^-e` (-900 ≤ e ≤ 900).  The unit does not matter to the
+exact comparison `theta ≤ Σ w`, so both give the same `Rule.thr` over integers. -/
 def parseRule0 (s : String) : Option (Option Rule) :=
   if s == "N" then some none
   else if s.startsWith "T:" then
     match ((s.drop 2).toString).splitOn ":" with
-    | [th, ms] => do
-      let th ← th.toInt?
-      let ms ← if ms == "" then some [] else (ms.splitOn ",").mapM parseMember
-      pure (some (Rule.thr ms th))
+    | [th, ms] => parseThr th ms
+    | _ => none
+  else if s.startsWith "Q" then
+    match ((s.drop 1).toString).splitOn ":" with
+    | [e, th, ms] =>
+      match e.toInt? with
+      | some ei => if toString ei == e && decide (-900 ≤ ei) && decide (ei ≤ 900) then parseThr th ms else none
+      | none => none
     | _ => none
   else if s.startsWith "S:" then
     let body := (s.drop 2).toString
@@ -213,6 +227,13 @@ def parsePend (s : String) : Option Pend :=
         | _ => none
   | _ => none
 
+/-- `~<entry>`: pending here and also carried by a side-branch block the ledger stores - pending like any other;
+`^<entry>`: only in the side-branch block, never admitted by this node - counts for nothing (`some none`) -/
+def parsePendS (s : String) : Option (Option (Pend × Bool)) :=
+  if s.startsWith "~" then (parsePend (s.drop 1).toString).map (fun p => some (p, true))
+  else if s.startsWith "^" then (parsePend (s.drop 1).toString).map (fun _ => none)
+  else (parsePend s).map (fun p => some (p, false))
+
 def parseKeySig (s : String) : Option (Option Name) :=
   if s == "x" then some none
   else match parseName s with
@@ -285,7 +306,12 @@ def vtx (envS mruleS ownersS pendS faultS iniS isigS usS usigS inputsS actS : St
   if !(ruleNames mrule).all nameInRange then none
   let owners ← (words ownersS).mapM parseOwnerE
   if !(owners.map (·.1)).Nodup then none
-  let pend ← (words pendS).mapM parsePend
+  let pendAll := (← (words pendS).mapM parsePendS).filterMap id
+  let pend := pendAll.map (·.1)
+  -- Evicting the pool records (`ev`) makes a key unreadable only through a pending writer the ledger does not hold:
+  -- the reader finds the copy of a side-carried one (`~`) in the ledger, in a block that is not on the main chain,
+  -- and passes over it like over any unconfirmed version.
+  let pendPlain := (pendAll.filter (fun p => !p.2)).map (·.1)
   let fault ← parseFault faultS
   let ini ← parseName iniS
   if !nameInRange ini then none
@@ -314,11 +340,11 @@ def vtx (envS mruleS ownersS pendS faultS iniS isigS usS usigS inputsS actS : St
   if !preExecutable stored broken acts [] then none
   let faultName : Option Name := match fault with
     | .read _ (.name n) => some n
-    | .evict (.name n) => if pend.contains (.acct n) then some n else none
+    | .evict (.name n) => if pendPlain.contains (.acct n) then some n else none
     | _ => none
   let badM : Act → Bool := fun a => match fault with
     | .read _ (.meth k) => k == methKind a
-    | .evict (.meth k) => k == 0 && methKind a == 0 && pend.contains .meth
+    | .evict (.meth k) => k == 0 && methKind a == 0 && pendPlain.contains .meth
     | _ => false
   let ch : TxChain := {
     env := env,
@@ -337,7 +363,7 @@ def vtx (envS mruleS ownersS pendS faultS iniS isigS usS usigS inputsS actS : St
     | _ => false
   pure (ar (verifyTx ch tx && !declaredReadBroken))
 
-def step (_ : Unit) (line : String) : Unit × String :=
+def step1 (_ : Unit) (line : String) : Unit × String :=
   match line.splitOn "|" with
   | ["ida", root, env, us] =>
     match parseName root, parseEnv env, parseURIs us with
@@ -377,6 +403,22 @@ def step (_ : Unit) (line : String) : Unit × String :=
   | ["vtx", env, mrule, owners, pend, fault, ini, isig, us, usig, inputs, act] =>
     ((), (vtx env mrule owners pend fault ini isig us usig inputs act).getD "bad-op")
   | _ => ((), "bad-op")
+
+/-- `conc <g> <iters> :: <ida|cmp line> :: …`: many goroutines evaluate the listed cases at the same time.  An
+evaluation has no effect, so every concurrent answer must be the sequential one: the answer line is the list of the
+sequential answers (the harness compares every concurrent answer with it). -/
+def step (_ : Unit) (line : String) : Unit × String :=
+  if line.startsWith "conc " then
+    match line.splitOn " :: " with
+    | hdr :: subs =>
+      match words hdr with
+      | ["conc", g, it] =>
+        if g.toNat?.isNone || it.toNat?.isNone || subs.isEmpty then ((), "bad-op")
+        else if subs.any (fun l => !(l.startsWith "ida|" || l.startsWith "cmp|")) then ((), "bad-op")
+        else ((), " ".intercalate (subs.map (fun l => (step1 () l).2)))
+      | _ => ((), "bad-op")
+    | [] => ((), "bad-op")
+  else step1 () line
 
 def run : IO Unit := loop step ()
 
